@@ -238,10 +238,15 @@ example : rayPlane ((0 : ℝ), (0 : ℝ), (0 : ℝ)) ((1 : ℝ), (0 : ℝ), (0 :
   · norm_num
   · simp only [OnPlane, toLocal, rotT, sub3, pointAt]; norm_num
 
-/-! ### ray–box, ray–cylinder, ray–capsule: see `MjProof/Lemmas/RayPrims.lean` for the statements' definitions -/
+/-! ### ray–box, ray–cylinder, ray–capsule (`OnBox`, `OnCylinder`, `OnCapsule`: `MjProof/Lemmas/RayPrims.lean`)
+
+`…_partial`: proved is soundness (a returned `x ≥ 0` is on the surface, with the face/cap/side conditions of the code) and
+the range (−1 or ≥ 0).  NOT proved: that no smaller non-negative parameter is on the surface and that −1 is returned only
+when there is none (this needs the convexity argument through the bounding-sphere pre-test and the `|lvec_i| > mjMINVAL`
+guards); that half is covered by the analytic oracle of checks/c16.py only. -/
 
 /-- a returned `x ≥ 0` puts the point on the boundary of the box `|l_i| ≤ size_i` (geom frame), for any `mat` -/
-theorem box_hit_on_surface (pos : V3) (m : M9) (size pnt vec : V3) (h : 0 ≤ rayBox pos m size pnt vec) :
+theorem box_hit_on_surface_partial (pos : V3) (m : M9) (size pnt vec : V3) (h : 0 ≤ rayBox pos m size pnt vec) :
     OnBox size (toLocal pos m (pointAt pnt vec (rayBox pos m size pnt vec))) :=
   RayLemmas.box_hit_on_surface pos m size pnt vec h
 
@@ -251,7 +256,7 @@ theorem box_range (pos : V3) (m : M9) (size pnt vec : V3) :
 
 /-- a returned `x ≥ 0` puts the point on the cylinder surface (flat caps `|z| = size[1]` within the radius, or the round
     side `x² + y² = size[0]²` between the caps), for any `mat` -/
-theorem cylinder_hit_on_surface (pos : V3) (m : M9) (size pnt vec : V3) (h : 0 ≤ rayCylinder pos m size pnt vec) :
+theorem cylinder_hit_on_surface_partial (pos : V3) (m : M9) (size pnt vec : V3) (h : 0 ≤ rayCylinder pos m size pnt vec) :
     OnCylinder size (toLocal pos m (pointAt pnt vec (rayCylinder pos m size pnt vec))) :=
   RayLemmas.cylinder_hit_on_surface pos m size pnt vec h
 
@@ -261,7 +266,7 @@ theorem cylinder_range (pos : V3) (m : M9) (size pnt vec : V3) :
 
 /-- a returned `x ≥ 0` puts the point on the capsule surface (round side between the cap centres, or the outer half of
     a cap sphere), for any `mat` -/
-theorem capsule_hit_on_surface (pos : V3) (m : M9) (size pnt vec : V3) (h : 0 ≤ rayCapsule pos m size pnt vec) :
+theorem capsule_hit_on_surface_partial (pos : V3) (m : M9) (size pnt vec : V3) (h : 0 ≤ rayCapsule pos m size pnt vec) :
     OnCapsule size (toLocal pos m (pointAt pnt vec (rayCapsule pos m size pnt vec))) :=
   RayLemmas.capsule_hit_on_surface pos m size pnt vec h
 
